@@ -405,5 +405,11 @@ def run(chk: Check) -> None:
     rule_r3(chk)
     rule_r4_r5(chk)
     rule_r6(chk)
+    # R7: bodies up to the maximum are accepted by the library's own client: its size cap is
+    # compared with the buffered body bytes only (= C13.E3)
+    from .c13 import rule_e3
+    from .common import reuse
+
+    reuse(chk, rule_e3, "R7", "the client's size cap is applied to the buffered body (len(self.buffer) after the header was split off), is finite, and exceeding it reports an error and closes (= C13.E3)", ("E3",))
     chk.trusted = ["CPython ast parser", "engine resolver (attribute annotations)", "asyncio transports deliver everything given to write() before close() completes", "OpenSSL.SSL.Connection.sendall loops until everything is written"]
     chk.assumptions = ["record/buffer boundary behaviour and back-pressure are not decided"]
